@@ -222,6 +222,9 @@ type faults struct {
 	// answer is in flight; the client's own timeout may end the wait first (answer lost).
 	Hold      string
 	ReleaseAt int
+	// QueueSize: configuration of the manager's pending queue (0 = 64, ample). Small values make the
+	// hand-off channel overflow, so records must reach the server through the retry scan alone.
+	QueueSize int
 }
 
 func (f faults) String() string {
@@ -231,6 +234,9 @@ func (f faults) String() string {
 	}
 	if f.Crash.At >= 0 {
 		s += fmt.Sprintf(" crash@%d:%s", f.Crash.At, f.Crash.Mode)
+	}
+	if f.QueueSize != 0 {
+		s += fmt.Sprintf(" QueueSize=%d", f.QueueSize)
 	}
 	if f.Hold != "" {
 		s += fmt.Sprintf(" hold-answer-of=%s release-before-op=%d", f.Hold, f.ReleaseAt)
@@ -443,9 +449,13 @@ func (x *exec) newManager() {
 	if err != nil {
 		panic(err)
 	}
+	qs := x.e.f.QueueSize
+	if qs == 0 {
+		qs = 64
+	}
 	am, err := radius.NewAccountingManager(cl, radius.AccountingConfig{
 		DefaultInterimInterval: interim, InterimEnabled: true, MaxRetries: 10, RetryBaseDelay: time.Second, RetryMaxDelay: 60 * time.Second,
-		QueueSize: 64, PersistPath: x.e.prefix + "/acct", ShutdownTimeout: 30 * time.Second, DrainOnShutdown: true,
+		QueueSize: qs, PersistPath: x.e.prefix + "/acct", ShutdownTimeout: 30 * time.Second, DrainOnShutdown: true,
 	}, zap.NewNop())
 	if err != nil {
 		panic(err)
@@ -836,7 +846,8 @@ type bounds struct {
 	// longer histories are explored with fewer simultaneous deviations
 	dropsAtLen map[int]int
 	torn       bool
-	holdCrash  bool // also enumerate crash points under every held-answer scenario
+	queueSizes []int // QueueSize configurations (0 = ample)
+	holdCrash  bool  // also enumerate crash points under every held-answer scenario
 	budget     time.Duration
 }
 
@@ -892,7 +903,7 @@ func (d *driver) report(sc scenario, out outcome, v viol) {
 	trace = append(trace, "| accepted: "+out.Stream)
 	rv := report.Violation{Part: d.part, Kind: v.Kind, Site: v.Site, Detail: v.Detail, Config: sc.F.String(), Trace: trace,
 		Extra: map[string]any{"ops": sc.Ops, "drops": sc.F.Drops, "down": sc.F.Down, "crash_at": sc.F.Crash.At, "crash_mode": sc.F.Crash.Mode,
-			"hold": sc.F.Hold, "release_at": sc.F.ReleaseAt, "crash_desc": out.CrashDesc, "crash_op": out.CrashOp, "sess": v.Sess, "unanswered": out.Unanswered, "crashed": out.Crashed, "epochs": out.Epochs}}
+			"queue_size": sc.F.QueueSize, "hold": sc.F.Hold, "release_at": sc.F.ReleaseAt, "crash_desc": out.CrashDesc, "crash_op": out.CrashOp, "sess": v.Sess, "unanswered": out.Unanswered, "crashed": out.Crashed, "epochs": out.Epochs}}
 	classify(&rv)
 	d.run.Violation(rv)
 }
@@ -900,6 +911,13 @@ func (d *driver) report(sc scenario, out outcome, v viol) {
 // explore one history: all outage patterns x all crash points.
 func (d *driver) history(ops []string) {
 	d.cnt.histories.Add(1)
+	for _, qs := range d.b.queueSizes {
+		d.historyCfg(ops, qs)
+	}
+}
+
+// historyCfg: one history under one QueueSize configuration (0 = ample).
+func (d *driver) historyCfg(ops []string, qs int) {
 	maxDrops := d.b.maxDrops
 	if m, ok := d.b.dropsAtLen[len(ops)]; ok {
 		maxDrops = m
@@ -923,13 +941,13 @@ func (d *driver) history(ops []string) {
 			if d.overBudget() {
 				return
 			}
-			out := d.one(scenario{ops, faults{Drops: p.drops, Crash: crashPlan{At: -1}}})
+			out := d.one(scenario{ops, faults{Drops: p.drops, Crash: crashPlan{At: -1}, QueueSize: qs}})
 			d.cnt.scenarios.Add(1)
 			if len(out.Viols) > 0 {
 				continue // violating executions are not extended with further deviations
 			}
 			all = append(all, p)
-			d.crashes(ops, faults{Drops: p.drops}, out)
+			d.crashes(ops, faults{Drops: p.drops, QueueSize: qs}, out)
 			if level < maxDrops {
 				has := map[string]bool{}
 				for _, k := range p.drops {
@@ -950,7 +968,7 @@ func (d *driver) history(ops []string) {
 	// one answer outstanding: for every request of the deviation-free execution, the server accepts it but
 	// its answer is held while the following operations run; released before operation r, for every later r
 	if len(all) > 0 {
-		base := d.one0(ops)
+		base := d.one0(ops, qs)
 		for _, k := range uniq(base.Keys) {
 			from := base.KeyOp[k] + 1
 			if from < 1 {
@@ -960,12 +978,12 @@ func (d *driver) history(ops []string) {
 				if d.overBudget() {
 					return
 				}
-				f := faults{Hold: k, ReleaseAt: r, Crash: crashPlan{At: -1}}
+				f := faults{Hold: k, ReleaseAt: r, Crash: crashPlan{At: -1}, QueueSize: qs}
 				out := d.one(scenario{ops, f})
 				d.cnt.scenarios.Add(1)
 				d.cnt.holds.Add(1)
 				if len(out.Viols) == 0 && d.b.holdCrash {
-					d.crashes(ops, faults{Hold: k, ReleaseAt: r}, out)
+					d.crashes(ops, faults{Hold: k, ReleaseAt: r, QueueSize: qs}, out)
 				}
 			}
 		}
@@ -974,16 +992,16 @@ func (d *driver) history(ops []string) {
 	if d.overBudget() {
 		return
 	}
-	out := d.one(scenario{ops, faults{Down: true, Crash: crashPlan{At: -1}}})
+	out := d.one(scenario{ops, faults{Down: true, Crash: crashPlan{At: -1}, QueueSize: qs}})
 	d.cnt.scenarios.Add(1)
 	if len(out.Viols) == 0 {
-		d.crashes(ops, faults{Down: true}, out)
+		d.crashes(ops, faults{Down: true, QueueSize: qs}, out)
 	}
 }
 
 // one0: the deviation-free execution of a history (for its request keys); not counted twice in the statistics.
-func (d *driver) one0(ops []string) outcome {
-	out, _ := bubble(d.t, scenario{ops, faults{Crash: crashPlan{At: -1}}})
+func (d *driver) one0(ops []string, qs int) outcome {
+	out, _ := bubble(d.t, scenario{ops, faults{Crash: crashPlan{At: -1}, QueueSize: qs}})
 	return out
 }
 
@@ -1045,8 +1063,8 @@ func (d *driver) explore() report.Part {
 		fmt.Printf("part %s: histories of length %d done (%d), executions so far %d, %.1fs\n", d.part, n, len(hs), d.cnt.execs.Load(), time.Since(d.start).Seconds())
 	}
 	p := report.Part{Name: d.part, Engine: "A:replay+fault/crash-enumeration(synctest)",
-		Bound: fmt.Sprintf("sessions<=%d history-length<=%d unanswered-requests<=%d (by length: %v) + down-throughout; crash before every env step + after last%s",
-			d.b.maxSess, d.b.maxLen, d.b.maxDrops, d.b.dropsAtLen, map[bool]string{true: " + torn WriteFile {empty,half}", false: ""}[d.b.torn]),
+		Bound: fmt.Sprintf("sessions<=%d history-length<=%d unanswered-requests<=%d (by length: %v) + down-throughout; QueueSize in %v (0 = 64); one held answer x release points; crash before every env step + after last%s",
+			d.b.maxSess, d.b.maxLen, d.b.maxDrops, d.b.dropsAtLen, d.b.queueSizes, map[bool]string{true: " + torn WriteFile {empty,half}", false: ""}[d.b.torn]),
 		States: int64(len(d.sigs)), Transitions: d.cnt.ops.Load(), Executions: d.cnt.execs.Load(), Outcomes: int64(len(d.sigs)), Exhaustive: !d.capped.Load(),
 		Note: fmt.Sprintf("histories=%d (history,outage) scenarios=%d crash executions=%d held-answer scenarios=%d (every request of the deviation-free execution x every later release point); states = distinct (accepted record stream, final files) outcomes", d.cnt.histories.Load(), d.cnt.scenarios.Load(), d.cnt.crashRuns.Load(), d.cnt.holds.Load())}
 	if d.capped.Load() {
@@ -1256,9 +1274,9 @@ func classify(v *report.Violation) {
 
 func tierBounds(thorough bool) bounds {
 	if thorough {
-		return bounds{maxSess: 3, maxLen: 5, maxDrops: 3, dropsAtLen: map[int]int{4: 2, 5: 2}, torn: true, holdCrash: true, budget: 16 * time.Minute}
+		return bounds{maxSess: 3, maxLen: 5, maxDrops: 3, dropsAtLen: map[int]int{4: 2, 5: 2}, torn: true, holdCrash: true, queueSizes: []int{0, 1, 2}, budget: 16 * time.Minute}
 	}
-	return bounds{maxSess: 2, maxLen: 4, maxDrops: 2, dropsAtLen: map[int]int{4: 1}, torn: true, budget: 50 * time.Second}
+	return bounds{maxSess: 2, maxLen: 4, maxDrops: 2, dropsAtLen: map[int]int{4: 1}, torn: true, queueSizes: []int{0, 1}, budget: 60 * time.Second}
 }
 
 func TestCheck(t *testing.T) {
@@ -1311,6 +1329,8 @@ func replay(t *testing.T, run *report.Run) int {
 	at, _ := v.Extra["crash_at"].(float64)
 	sc.F.Crash.At = int(at)
 	sc.F.Crash.Mode, _ = v.Extra["crash_mode"].(string)
+	qsz, _ := v.Extra["queue_size"].(float64)
+	sc.F.QueueSize = int(qsz)
 	sc.F.Hold, _ = v.Extra["hold"].(string)
 	ra, _ := v.Extra["release_at"].(float64)
 	sc.F.ReleaseAt = int(ra)
